@@ -230,6 +230,30 @@ def strict_extern_groups(rng):
         members.append(c)
         all_dims.append(["derives", "default-derive"])
     out.append((members, all_dims))
+    # @oneOf inputs (rendered as Rust enums) whose member names change under normalization, as a variable and nested in an
+    # input object: the member name on the wire is the GraphQL one under every option set (C09-r10m1)
+    s = Schema()
+    s.add("BookBy", {"kind": "input", "one_of": True, "fields": [["author", T("Int")], ["isbnCode", T("String")], ["by_title", T("String")], ["type", T("Int")], ["HTTPRef", T("String")]]})
+    s.add("Wrapper", {"kind": "input", "one_of": False, "fields": [["pick", T("BookBy")], ["picks", ("list", NN(T("BookBy")))]]})
+    s.add("Query", {"kind": "object", "implements": [], "fields": [{"name": "book", "type": T("Int"), "args": [["by", T("BookBy")], ["w", T("Wrapper")]], "deprecated": None}]})
+    doc = {"operations": [{"kind": "query", "name": "FindBook", "vars": [{"name": "by", "type": T("BookBy"), "default": None}, {"name": "w", "type": T("Wrapper"), "default": None}],
+                           "sel": [["field", None, "book", "(by: $by, w: $w)", None]]}], "fragments": []}
+    members_of = [("author", 7), ("isbnCode", "x"), ("by_title", "t"), ("type", 1), ("HTTPRef", "r")]
+    vecs = []
+    for k, (m, v) in enumerate(members_of):
+        vecs.append({"id": "FindBook.a%d" % k, "kind": "vars", "target": "FindBook", "input": {"by": {m: v}}, "expect": {}})
+        vecs.append({"id": "FindBook.n%d" % k, "kind": "vars", "target": "FindBook", "input": {"w": {"pick": {m: v}, "picks": [{m: v}, {members_of[(k + 1) % 5][0]: members_of[(k + 1) % 5][1]}]}}, "expect": {}})
+    members, all_dims = [], []
+    for vi, vo in enumerate([{}, {"normalization": "rust"}, {"normalization": "rust", "variables_derives": "Deserialize,Debug,PartialEq,Clone"}, {"visibility": "pub(crate)"}]):
+        opts = {"other_variant": False, "skip_none": False}       # (skip-none is not wire-neutral: constant inside a group)
+        opts.update(vo)
+        c = C.make_case("x11v%d" % vi, s, doc, rng, options=opts, fmt="sdl")
+        if members:
+            c["schema_text"], c["schema_ext"], c["schema_format"] = members[0]["schema_text"], members[0]["schema_ext"], members[0]["schema_format"]
+        c["vectors"] = vecs
+        members.append(c)
+        all_dims.append((["normalization"] if vo.get("normalization") else []) + ["one-of-members"])
+    out.append((members, all_dims))
     return out
 
 
